@@ -80,9 +80,15 @@ def isbyteslike(t: t.Any) -> bool:
     References are evaluated and qualifiers, aliases and NewTypes are looked through,
     exactly as the marshaller and unmarshaller for `t` do.
     """
-    if isinstance(t, (str, refs.ForwardRef)):
-        t = refs.evaluate(refs.forwardref(t) if isinstance(t, str) else t)
-    return inspection.isbytestype(inspection.unwrap(t))
+    # A string-valued alias unwraps to a reference to its text: evaluate that, too.
+    #   (Bounded: an alias may be recursive.)
+    for _ in range(16):
+        if isinstance(t, (str, refs.ForwardRef)):
+            t = refs.evaluate(refs.forwardref(t) if isinstance(t, str) else t)
+        t = inspection.unwrap(t)
+        if not isinstance(t, (str, refs.ForwardRef)):
+            return inspection.isbytestype(t)
+    return False
 
 
 @classes.slotted(dict=False, weakref=False)
